@@ -331,6 +331,91 @@ def sequence_stream(chk, P, fresh, n_groups):
             pass
     return None, stats
 
+BOUNDARY_CHARSETS = ['UTF-8', 'UTF-8', 'ISO-8859-2', 'KOI8-R', 'CP1251', 'EUC-JP', 'SHIFT_JIS', 'GBK', 'ISO-8859-15', 'KOI8-RU']
+HEADER_PREFIXES = ['tcomment', 'blank', 'ignored', 'obsolete', 'longline']
+CHEAP_FOR_DRIVER = ('entries', 'longline', 'blank', 'ignored', 'obsolete')
+
+def boundary_stream(chk, P):
+    """size / offset boundary families: a late feature (the header's Content-Type line, an obsolete entry, a flag line, a
+    charset-dependent escape) starting exactly at byte offset 2^k-1, 2^k, 2^k+1 (k = 10..20) behind comment blocks, blank lines, obsolete
+    entries, one very long line, many entries or one very long string.  The model has no size limit anywhere (`detect_header_general`
+    quantifies over any `pre`); a loader short-cut that looks only at the first N bytes or lines shows up here with a concrete file, and
+    the failing size is minimised by bisection (the constructor is a function of the offset)."""
+    rng = chk.rng
+    T = chk.thorough
+    usable = [c for c in BOUNDARY_CHARSETS if G.repertoire(c)]
+    small = [x for x in G.BOUNDARY_SIZES if x <= (1 << 14) + 1]
+    big = [x for x in G.BOUNDARY_SIZES if x > (1 << 14) + 1]
+    sizes = G.BOUNDARY_SIZES if T else small + rng.sample(big, 3)
+    cases = []
+    for S in sizes:
+        for Sh in ((S, S - 20) if (T or S <= (1 << 14) + 1) else (S,)):           # the declaration starting at S, and straddling it
+            for _ in range(20):
+                c = (rng.choice(usable), rng.choice(HEADER_PREFIXES), 'header', Sh, rng.randrange(1000))
+                if G.boundary_file(*c) is not None:
+                    cases.append(c); break
+        cases += G.boundary_cases(rng, [S], usable, per_size=2 if T else 1)
+    stats = {'files': 0, 'largest': 0, 'by_feature': {}, 'by_prefix': {}, 'sizes': len(sizes), 'bytes': 0, 'in_correspondence': 0}
+    lines, impls = [], []
+    cex = None
+    for cs, prefix, feature, S, variant in cases:
+        cat, text, info = G.boundary_file(cs, prefix, feature, S, variant)
+        data = text.encode(cs)
+        stats['files'] += 1
+        stats['bytes'] += len(data)
+        stats['largest'] = max(stats['largest'], len(data))
+        stats['by_feature'][feature] = stats['by_feature'].get(feature, 0) + 1
+        stats['by_prefix'][prefix] = stats['by_prefix'].get(prefix, 0) + 1
+        r = check_roundtrip(P, data, cat, cs, text)
+        if r is None:
+            if len(data) <= (1 << 14) + 400 or (len(data) <= (1 << 16) + 400 and prefix in CHEAP_FOR_DRIVER):
+                line, skip = P.load_line(data, table_ok=True)
+                if not skip:
+                    lines.append(line); impls.append(P.impl_load(data)); stats['in_correspondence'] += 1
+            continue
+        # minimise the offset: the smallest S for which this family still fails
+        def fails(S2):
+            b = G.boundary_file(cs, prefix, feature, S2, variant)
+            if b is None:
+                return None
+            c2, t2, _i = b
+            rr = check_roundtrip(P, t2.encode(cs), c2, cs, t2)
+            if rr is not None:
+                rr['_cat'] = c2
+            return rr
+        r['_cat'] = cat
+        lo = None
+        for S0 in (200, 300, 400, 600, 800, 1000):
+            if S0 < S and fails(S0) is None and G.boundary_file(cs, prefix, feature, S0, variant) is not None:
+                lo = S0; break
+        best, bestS = r, S
+        if lo is not None:
+            hi = S
+            while hi - lo > 1:
+                mid = (lo + hi) // 2
+                rr = fails(mid)
+                if rr is None:
+                    if G.boundary_file(cs, prefix, feature, mid, variant) is None:
+                        lo = mid            # no file of that size in this family: treat as passing
+                    else:
+                        lo = mid
+                else:
+                    hi, best, bestS = mid, rr, mid
+        cex = dict(best, boundary_family={'prefix': prefix, 'late_feature': feature, 'charset': cs, 'variant': variant,
+                                          'first_failing_offset_found': S, 'minimal_failing_offset': bestS,
+                                          'largest_passing_offset_below': lo,
+                                          'meaning': f'the late feature ({feature}) starts at byte offset {bestS} of the file, behind {prefix} filler; '
+                                                     f'the same file with the feature at offset {lo} loads to its catalog'})
+        if len(cex.get('file_hex', '')) > 400000:
+            cex.pop('file_text', None)
+        break
+    if lines and os.path.exists(common.driver_path()):
+        try:
+            chk.stream('po-load-boundary', lines, impls)
+        except common.Infra:
+            pass
+    return cex, stats
+
 def classify_history(chk, P, fresh, cex, last, bad, seq_cex, hist_index=None):
     """an operation that went wrong inside this long-running process (`last`, judged by `bad(result)`): does it go wrong in a fresh
     process too?  If not, the failure depends on what the process did before: shrink that history."""
@@ -507,6 +592,17 @@ def main():
             cex = classify_history(chk, P, fresh, {'kind': 'catalog-differs-after-history', 'file_hex': d.hex(), 'observed': now[:400], 'expected': (alone or '')[:400]},
                                    {'op': 'load', 'hex': d.hex(), 'enc': None}, lambda r: r.get('canon') != alone, None, len(P._history) - 1)
             break
+    # ------------------------------------------------------------------ size / offset boundaries
+    if cex is None:
+        cex, bstats = boundary_stream(chk, P)
+        chk.evaluations += bstats['files']
+        chk.coverage['boundary_stream'] = dict(bstats, found=cex is not None)
+        if cex is not None:
+            bf, bcat = cex.get('boundary_family'), cex.get('_cat')
+            cex = classify_history(chk, P, fresh, cex, {'op': 'load', 'hex': cex['file_hex'], 'enc': None},
+                                   lambda r, bcat=bcat: judge_fresh(r, bcat) is not None, seq_cex, cex.get('_hist_index'))
+            if bf and 'boundary_family' not in cex:
+                cex['boundary_family'] = bf
     extra_wf = wf if not chk.broken else wf + wellformed(rng, n_wf * (mult - 1), charsets)
     if T and not chk.broken:
         extra_wf = wf + wellformed(rng, n_wf, charsets)
@@ -559,6 +655,9 @@ def main():
              'KOI8-RU, GEORGIAN-PS, VISCII, EUC-TW, KOI8-T, ASCII; plus UTF-16/UTF-7/CP037/UTF-32 declared on ASCII files) x spellings (per character: raw, simple escape, octal 1-3 digits, '
              'hex 1-2 digits either case, escaped bytes of the charset; cuts anywhere between characters, empty segments, blank lines, ignored comment forms, atypical comments, padding, '
              'final newline or not, trailing comments); malformed: one/two token-aware edits of such files, token soup, random bytes, encoding argument None/ISO-8859-1/UTF-8/ASCII; '
+             'size/offset boundary families: a late feature (header Content-Type line, obsolete entry, flag line, charset-dependent escape) at byte offsets 2^k-1, 2^k, 2^k+1 '
+             '(k=10..20; sampled in quick) behind comment blocks, blank/ignored lines, obsolete entries, one very long line, many entries, one very long string; '
+             'sequences of files in different charsets sharing escaped lines, every order, one process per order; '
              'non-trivial = distinct accepted outcome with at least one entry',
         trusted=['Lean 4.33 kernel', 'axioms: propext, Classical.choice, Quot.sound only',
                  'tools/translate/polib2lean.py (dumps the transition table of a live _POFileParser after install_patches(), the keyword tables, regex texts, interpreter character classes)',
